@@ -74,9 +74,10 @@ fn header(version: Option<&str>) -> String {
 }
 
 fn case(id: String, version: Option<&str>, body: String, interfaces: &[&str], worlds: &[&str], tags: Vec<String>) -> WitCase {
+    // bodies are written in WAC spelling; WIT spells `include w with { a as b }` and inline
+    // interfaces of world items (`import x: interface { .. }`) without a terminating semicolon
     let wac_body = body.clone();
-    // WIT spells `include w with { a as b }` without a terminating semicolon
-    let body = body.replace(" };\n}\n", " }\n}\n");
+    let body = body.replace(" };\n}\n", " }\n}\n").replace("  };\n", "  }\n");
     WitCase {
         id,
         wac_text: format!("{}{}", header(version), wac_body),
@@ -97,9 +98,7 @@ pub fn enumerate(tier: Tier) -> Vec<WitCase> {
     // (1) single interfaces: every type declaration x every function shape; world imports / exports it
     for (ti, t) in TYPE_DECLS.iter().enumerate() {
         for (fi, (f, ftag)) in FUNC_SHAPES.iter().enumerate() {
-            if !thorough && fi > 2 && ti > 2 && (ti + fi) % 3 != 0 {
-                continue; // quick: all shapes for the first declarations, a third of the rest
-            }
+
             let mut f = f.replace("{N}", t.name);
             if t.resource && *ftag == "identity" {
                 f = format!("f: func(a: {0}) -> {0}; g: func(b: borrow<{0}>);", t.name);
@@ -139,8 +138,26 @@ pub fn enumerate(tier: Tier) -> Vec<WitCase> {
         }
     }
 
+    // (1b) two independent declarations in one interface, a function over both
+    for (i, t1) in TYPE_DECLS.iter().enumerate() {
+        for (j, t2) in TYPE_DECLS.iter().enumerate() {
+            if t1.name == t2.name || (!thorough && (i + 2 * j) % 3 != 0) {
+                continue;
+            }
+            let h2 = if t2.resource { format!("borrow<{}>", t2.name) } else { t2.name.to_string() };
+            let body = format!(
+                "interface i0 {{\n  {}\n  {}\n  f: func(a: {}, b: list<{h2}>) -> option<{}>;\n}}\n\nworld wi {{ import i0; }}\nworld we {{ export i0; }}\n",
+                t1.text, t2.text, t1.name, t1.name
+            );
+            out.push(case(format!("pair/{}/{}", t1.tag, t2.tag), Some("1.0.0"), body, &["i0"], &["wi", "we"], vec![t1.tag.into(), t2.tag.into(), "pair".into()]));
+        }
+    }
+
     // (2) `use` topologies over a base declaration
-    let bases: Vec<&TypeDecl> = TYPE_DECLS.iter().filter(|t| ["record", "variant", "alias-prim", "resource-full", "enum", "resource-bare"].contains(&t.tag)).collect();
+    let bases: Vec<&TypeDecl> = TYPE_DECLS
+        .iter()
+        .filter(|t| thorough || ["record", "variant", "alias-prim", "resource-full", "enum", "resource-bare", "flags", "alias-list"].contains(&t.tag))
+        .collect();
     for b in &bases {
         let n = b.name;
         let i0 = format!("interface i0 {{\n  {}\n}}\n\n", b.text);
@@ -207,7 +224,7 @@ pub fn enumerate(tier: Tier) -> Vec<WitCase> {
         out.push(case(
             "world/inline".into(),
             *v,
-            "world w {\n  import x: interface {\n    f: func();\n  }\n  export y: interface {\n    record r { a: u32 }\n    g: func() -> r;\n  }\n}\n".into(),
+            "world w {\n  import x: interface {\n    f: func();\n  };\n  export y: interface {\n    record r { a: u32 }\n    g: func() -> r;\n  };\n}\n".into(),
             &[],
             &["w"],
             vec!["world-inline".into()],
